@@ -421,9 +421,26 @@ def search(ctx, exe, det, tr, stats):
 
 
 # ----------------------------------------------------------------------------- entry points
+def build_harness(ctx):
+    # quick tier: -O0 -g1 halves the build time of the Eigen-heavy TU (the cases are small); the later flags win
+    return ctx.cpp("harness/c15.cpp", defines=["nowait=schedule(runtime) nowait"],
+                   extra=["-I", os.path.join(ctx.repo, "src")] + (["-O0", "-g1"] if ctx.quick else []))
+
+
 def run(ctx):
     quick = ctx.quick
     stats = {}
+    # the C++ build (about a minute) runs while Coq checks the proofs
+    import threading
+    built = {}
+
+    def _build():
+        try:
+            built["exe"] = build_harness(ctx)
+        except Exception as ex:      # re-raised in the main thread
+            built["err"] = ex
+    th = threading.Thread(target=_build)
+    th.start()
     coq = ctx.coq()
     tr, text, err = regenerate(ctx)
     committed = ""
@@ -446,8 +463,10 @@ def run(ctx):
         else:
             table_ok = False
     combos = COMBOS_QUICK if quick else COMBOS_THOROUGH
-    exe = ctx.cpp("harness/c15.cpp", defines=["nowait=schedule(runtime) nowait"],
-                  extra=["-I", os.path.join(ctx.repo, "src")])
+    th.join()
+    if "err" in built:
+        raise built["err"]
+    exe = built["exe"]
     cases = []
     hist = {"corpus": 0}
     for name, c in ctx.corpus():
@@ -522,8 +541,7 @@ def replay(ctx, case):
         inner = case.get("case")
         rc = 0 if ok else 1
         if inner:
-            exe = ctx.cpp("harness/c15.cpp", defines=["nowait=schedule(runtime) nowait"],
-                          extra=["-I", os.path.join(ctx.repo, "src")])
+            exe = build_harness(ctx)
             combos = case.get("combos", COMBOS_QUICK)
             res = run_cases(ctx, exe, [inner], combos)
             judge(ctx, [inner], res, combos, stats)
@@ -533,8 +551,7 @@ def replay(ctx, case):
                 rc = 1
         print("replay: property C15 %s on this tree" % ("FAILS" if rc else "holds"))
         return rc
-    exe = ctx.cpp("harness/c15.cpp", defines=["nowait=schedule(runtime) nowait"],
-                  extra=["-I", os.path.join(ctx.repo, "src")])
+    exe = build_harness(ctx)
     combos = case.get("combos", COMBOS_QUICK)
     c = dict(case, id=case.get("id", 1))
     res = run_cases(ctx, exe, [c], combos)
